@@ -209,13 +209,17 @@ func (r Return) byteCode(srcsel int, fl flags.Pass, cr compResult) bytecode.Type
 func (y Yield) byteCode(srcsel int, fl flags.Pass, cr compResult) bytecode.Type {
 	target := y.Target.byteCode(0, fl.Data().Pass(), cr)
 	instr := bytecode.New(bytecode.YIELD) | target
-	*cr.CS = append(*cr.CS, instr)
 
 	if fl.Data().Discard {
+		*cr.CS = append(*cr.CS, instr)
+
 		return bytecode.EncodeSrc(srcsel, bytecode.AddrInv, 0)
 	}
 
-	instr = bytecode.New(bytecode.PUSHTMP)
+	// the value of the yield expression is the yielded value; it is kept on the
+	// stack of the yielding context, the temp register doesn't survive the
+	// loop body
+	instr |= bytecode.EncodeSrc(1, bytecode.AddrImm, 1)
 	*cr.CS = append(*cr.CS, instr)
 
 	return bytecode.EncodeSrc(srcsel, bytecode.AddrStck, 0)
